@@ -1129,6 +1129,7 @@ impl<W: Write> Exec<W> {
             }
             "encode_list" => self.enclist_event(sid, i, step),
             "pubkey" => self.pubkey_event(sid, i, step),
+            "decpub" => self.decpub_event(sid, i, step),
             "keygen" => self.keygen_event(sid, i, step),
             "decode_stream" => self.stream_event(sid, i, step),
             "decode_list" => self.list_event(sid, i, step),
@@ -1518,6 +1519,41 @@ impl<W: Write> Exec<W> {
         let sig = jbytes(&r["sig"]);
         let sm = if kt == "var" { keys::var_verify(&pkb, &probe, &sig) } else if sch == 'k' { indep::secp_sigmath_libsecp(&pkb, &probe, &sig) } else { indep::ed_sigmath(&pkb, &probe, &sig) };
         m.insert("sig_math".into(), json!(sm));
+        m.insert("panics".into(), Value::Array(panics));
+        self.emit(Value::Object(m));
+    }
+
+    /// EnrKeyUnambiguous::decode_public of each single-scheme key type on arbitrary bytes
+    fn decpub_event(&mut self, sid: &Value, i: usize, step: &Value) {
+        use enr::EnrKeyUnambiguous;
+        let bytes = jbytes(get(step, "bytes"));
+        let mut m = self.base("decpub", sid, i, step);
+        let mut panics = Vec::new();
+        let k = guarded("decode_public_k256", &mut panics, || {
+            <k256::ecdsa::SigningKey as EnrKeyUnambiguous>::decode_public(&bytes).ok().map(|p| (p.encode().to_vec(), NodeId::from(p).raw()))
+        })
+        .flatten();
+        let l = guarded("decode_public_libsecp", &mut panics, || {
+            <libsecp::SecretKey as EnrKeyUnambiguous>::decode_public(&bytes).ok().map(|p| (p.encode().to_vec(), NodeId::from(p).raw()))
+        })
+        .flatten();
+        let e = guarded("decode_public_ed", &mut panics, || {
+            <ed::SigningKey as EnrKeyUnambiguous>::decode_public(&bytes).ok().map(|p| (p.encode().to_vec(), NodeId::from(p).raw()))
+        })
+        .flatten();
+        let f = |o: Option<(Vec<u8>, [u8; 32])>| match o {
+            None => json!([]),
+            Some((enc, nid)) => json!([{"enc": bytes_json(&enc), "nid": bytes_json(&nid)}]),
+        };
+        m.insert("bytes".into(), bytes_json(&bytes));
+        m.insert("k256".into(), f(k));
+        m.insert("libsecp".into(), f(l));
+        m.insert("ed".into(), f(e));
+        let (va, vb) = indep::secp_pk_valid(&bytes);
+        m.insert("facts".into(), json!({"secp_valid": va, "secp_valid2": vb, "ed_valid": indep::ed_pk_valid(&bytes),
+            "secp_nid": indep::secp_nid(&bytes).map(|n| bytes_json(&n)).unwrap_or(json!([])),
+            "ed_nid": indep::ed_nid(&bytes).map(|n| bytes_json(&n)).unwrap_or(json!([])),
+            "secp_compressed": libsecp::PublicKey::from_slice(&bytes).map(|p| bytes_json(&p.serialize())).unwrap_or(json!([]))}));
         m.insert("panics".into(), Value::Array(panics));
         self.emit(Value::Object(m));
     }
